@@ -22,9 +22,9 @@ ANCHORS = ["hashtable.py::HashTable.__init__", "hashtable.py::HashTable._build_r
            "hashtable.py::HashTable._get_indices", "hashtable.py::HashTable.contains", "hashtable.py::HashSet.contains", "hashtable.py::HashTable._fill_values",
            "hashtable.py::HashTable.__setitem__", "hashtable.py::HashTable.__getitem__", "hashtable.py::HashTable.fill", "hashtable.py::HashTable.__add__",
            "hashtable.py::HashTable.__eq__", "hashtable.py::HashTable.items", "hashtable.py::HashTable.to_dict", "hashtable.py::zeros_like", "hashtable.py::ones_like"]
-OPS = ["get1", "getv", "getmiss", "set1", "setv", "setvv", "fill", "contains", "hs_contains1", "hs_containsv", "zeros_like", "ones_like", "add", "eq", "items", "to_dict", "getwide", "getreuse"]
+OPS = ["get1", "getv", "getmiss", "set1", "setv", "setvv", "fill", "contains", "hs_contains1", "hs_containsv", "zeros_like", "ones_like", "add", "eq", "items", "to_dict", "getwide", "getreuse", "deepcopy", "pickle"]
 FLOOR_TAGS = ["op:" + o for o in OPS] + ["init:scalar", "init:array", "mod:None", "mod:1", "mod:explicit", "keys:neg", "keys:big", "keys:dense", "keys:small",
-                                         "kd:int8", "kd:uint64", "kd:list", "kd:int64", "state:scalar-at-first-write", "derived-table-used"]
+                                         "kd:int8", "kd:uint64", "kd:list", "kd:int64", "state:scalar-at-first-write", "derived-table-used", "values:infinite"]
 FLOOR_MONITORS = ["c11:step", "c11:readback", "c11:keyset", "c11:must-refuse", "c11:caller-arrays"]
 N_RANDOM = {"quick": 4000, "thorough": 100000}
 KD = ["int8", "int16", "int32", "int64", "uint8", "uint16", "uint32", "uint64", None]
@@ -54,7 +54,7 @@ def run(case):
     init = case["init"]
     scalar_init = not isinstance(init, list)
     style = case.get("style", "small")
-    tags = ["init:" + ("scalar" if scalar_init else "array"), "mod:" + ("None" if mod is None else ("1" if mod == 1 else "explicit")), "keys:" + style, "kd:" + (kd or "list")]
+    tags = (["values:infinite"] if (not scalar_init and any(isinstance(v, float) and v in (float("inf"), float("-inf")) for v in init)) else []) + ["init:" + ("scalar" if scalar_init else "array"), "mod:" + ("None" if mod is None else ("1" if mod == 1 else "explicit")), "keys:" + style, "kd:" + (kd or "list")]
     kw = {} if mod is None else {"mod": mod}
     kin = karr(keys, kd)
     vin = init if scalar_init else np.array(init, dtype=vdt)
@@ -202,6 +202,17 @@ def run(case):
                 new = "d%d" % len(tables)
                 tables[new] = (a.value, {k: (0 if name == "zeros_like" else 1) for k in keys})
                 bad = readback(new, step)
+        elif name in ("deepcopy", "pickle"):
+            # an independent copy: it answers like the original now, and joins the history (later writes to either must not reach the other)
+            import copy
+            import pickle
+            a = attempt((lambda: copy.deepcopy(tb)) if name == "deepcopy" else (lambda: pickle.loads(pickle.dumps(tb))))
+            if not a.ok:
+                bad = "%s of the table raised %r" % (name, a)
+            else:
+                new = "d%d" % len(tables)
+                tables[new] = (a.value, dict(md))
+                bad = readback(new, step)
         elif name == "add":
             other_vals = op["vals"]
             t2 = lib.HashTable(karr(keys, kd), np.array(other_vals, dtype=vdt), **kw)
@@ -219,7 +230,8 @@ def run(case):
         elif name == "eq":
             vals2 = [md[k] for k in keys]
             if op["differ"] is not None:
-                vals2[op["differ"] % len(keys)] += 1
+                i_ = op["differ"] % len(keys)
+                vals2[i_] = vals2[i_] + 1 if np.isfinite(vals2[i_]) else 0
             t2 = lib.HashTable(karr(keys, kd), np.array(vals2, dtype=vdt), **kw)
             a = attempt(lambda: bool(tb == t2))
             want = op["differ"] is None
@@ -301,6 +313,8 @@ def gen_history(rng, tier, kd="pick", style=None, mod="pick", scalar_init=None, 
     init = rng.choice([5, 0, 7, 2.5, 0.25]) if scalar_init else [rng.randint(-9, 9) for _ in keys]
     if isinstance(init, float):
         vdtype = "float64"
+    if not scalar_init and vdtype == "float64" and rng.random() < 0.3:
+        init = [rng.choice([float("inf"), float("-inf"), 1.5, -2.0, 0.0, 3.0]) for _ in keys]     # infinities are values like any other
     m = mod if mod is not None else 2 * n - 1
 
     def nonkey(wide=False):
@@ -373,7 +387,7 @@ def gen_history(rng, tier, kd="pick", style=None, mod="pick", scalar_init=None, 
                 op["qdtype"] = "int64"
             elif any(not (lo <= x <= hi) for x in q):
                 op["keys"] = [x for x in q if lo <= x <= hi] or [keys[0]]
-        elif name in ("zeros_like", "ones_like"):
+        elif name in ("zeros_like", "ones_like", "deepcopy", "pickle"):
             ntables += 1
         elif name == "add":
             op["vals"] = [rng.randint(1, 50) for _ in keys]
